@@ -106,6 +106,23 @@ CHECKS["C09"] = dict(
     note="Optimiser noise tolerances 1e-4 (1e-9 for closed-form families); documented RuntimeErrors must occur for both row orders alike.",
     design="7/C09",
 )
+CHECKS["C02"] = dict(
+    technique="property-based testing (Hypothesis): validity predicate on the region reconstructed from public outputs with independently computed cell probabilities; differential for the cell-averaged pdf; model-free properties of the public cumsum helper",
+    text="Generated 2-D/3-D models, alpha in [1e-6,0.3], explicit/default limits (reachable and not reachable), scalar / per-dimension / anisotropic deltas, 10-400 cells per axis. Region = cells with "
+         "density >= fm (tolerance set for ties), cell probabilities = products of conditional cdf differences computed by the harness from the spec: content <= 1-alpha and within one (densest excluded) "
+         "cell of it, fm is a cell density, RuntimeWarning iff the grid holds < 1-alpha (then whole grid, fm=0), grid built from limits/deltas as documented, cell_averaged_joint_pdf equals the harness "
+         "probabilities. cumsum_biggest_until: selected sum <= limit, maximal, selected >= unselected, last_summed, warning, input untouched, on random arrays with ties.",
+    note="Reference cdfs decided by C05; default limits only for alpha >= 1e-3/1e-4 and 3-D grids <= 36^3/80^3 cells (memory bound of the implementation).",
+    design="7/C02",
+)
+CHECKS["C15"] = dict(
+    technique="property-based testing (Hypothesis): set-equality oracle between returned coordinates and the harness' own boundary-cell computation on the reconstructed region; permutation oracle for the line sorter",
+    text="Same generator as C02. Boundary cells of the reconstructed region (3^n-1 neighbourhood, grid border = outside, computed with shifted padded views, no scipy.ndimage) must equal the returned "
+         "coordinates as multisets (each once), a single 2-D component in sorter order as one (N,2) array, several components as the connected components. The sorter itself must return a permutation "
+         "of arbitrary planar point sets (polygons, ellipses up to aspect 20, lattice rings with unequal spacing, clusters, random clouds) for both search_for_optimal_start values.",
+    note="Exact ties at the threshold that cannot all be enclosed are skipped for the boundary comparison (counted); regions with holes: union only.",
+    design="7/C15",
+)
 NOT_YET = {}
 
 def main():
